@@ -21,7 +21,7 @@ ASSUMPTIONS = [
     "the relative-reduction premise is checked (with <=) only when a recording callback supplies the previous iterate's value",
     "reference optimum for placing reachable/unreachable targets comes from scipy's L-BFGS-B on the same problem",
 ]
-FAMS = ("qp", "qp_quartic", "rosenbrock", "exp_wall", "rastrigin", "styblinski_tang", "beale", "sphere", "quartic", "log_barrier", "qp_inf_region", "qp_nan_region")
+FAMS = ("qp", "qp_quartic", "rosenbrock", "exp_wall", "rastrigin", "styblinski_tang", "beale", "sphere", "quartic", "log_barrier", "qp_inf_region", "qp_nan_region", "flat")
 
 
 def floors(tier):
@@ -37,7 +37,7 @@ def cases(tier, seed):
     rng = np.random.default_rng(subseed("C04", seed))
     nrun = 2500 if tier == "quick" else 80000
     for i in range(nrun):
-        ps = gen.rand_spec(rng, FAMS, nmax=6, boxes=("none", "mixed", "boxed", "lower", "narrow", "nonneg", "unit", "boxed_degenerate"), starts=("interior", "face", "vertex"))
+        ps = gen.rand_spec(rng, FAMS, nmax=6, boxes=("none", "mixed", "boxed", "lower", "narrow", "nonneg", "unit", "boxed_degenerate", "all_fixed"), starts=("interior", "face", "vertex"))
         if ps["family"] == "log_barrier":
             ps["box"] = gen.pick(rng, ["none", "none", "lower", "nonneg"])  # the domain x > 0 is enforced by inf values, not by the box
         cfg = {
